@@ -21,6 +21,7 @@ strip = UF('str.strip', StrS, StrS)
 Is = {k: UF('re.' + k + '.matches', StrS, BoolS) for k in ('COMMENT', 'BLANK', 'SECTION_HEADER', 'FILTER_DECL', 'DESCRIPTION_DECL', 'VARIABLE_DECL')}
 Group = {k: UF('re.' + k + '.group', StrS, IntS, StrS) for k in Is}
 ParseErr = UF('expr_parser.parse.raises', StrS, BoolS)
+DIST = UF('pairwise_distinct', SS, BoolS)        # recursive definition on sequences, instantiated where a view is recorded
 OKF = UF('every_filter_nonempty', SS, BoolS)       # recursive definition on sequences, instantiated where a view is recorded
 
 
@@ -122,9 +123,11 @@ def h_parse_sections(ctx):
         out = {'views_so_far_are_the_headers_so_far_in_order': names == Names(lines, k),
                'each_with_its_header_line_number': lnos == Lnos(lines, k),
                'a_view_is_open_iff_a_header_was_seen': (LastH(lines, k) >= 0) if cur is not None else (LastH(lines, k) == -1),
-               'recorded_views_have_filters': OKF(cols[2])}
+               'recorded_views_have_filters': OKF(cols[2]),
+               'recorded_view_names_are_pairwise_distinct': DIST(cols[0])}
         if cur is not None:
             out['open_view_has_the_last_filter_of_its_section'] = to_z3(cur.fields['filter_expr'], StrS) == CurF(lines, k)
+            out['open_view_name_is_not_a_recorded_name'] = z3.Not(z3.Contains(cols[0], z3.Unit(to_z3(cur.fields['name'], StrS))))
             out['open_view_line_is_its_header_line'] = to_z3(cur.fields['line_number'], IntS) == LastH(lines, k) + 1
         return out
 
@@ -156,9 +159,13 @@ def h_parse_sections(ctx):
             before = recorded(o)[2]
             ctx.check('C17.views.a_view_is_recorded_only_with_a_filter', z3.Length(f) > 0, 'property')
             ctx.assume(OKF(z3.Concat(before, z3.Unit(f))) == z3.And(OKF(before), z3.Length(f) > 0))
+            nm, names_before = to_z3(args[0].fields['name'], StrS), recorded(o)[0]
+            ctx.check('C17.views.a_view_is_recorded_only_under_a_new_name', z3.Not(z3.Contains(names_before, z3.Unit(nm))), 'property')
+            ctx.assume(DIST(z3.Concat(names_before, z3.Unit(nm))) == z3.And(DIST(names_before), z3.Not(z3.Contains(names_before, z3.Unit(nm)))))
         return orig_method(o, attr, args, kwargs, node)
     I.method = method
     ctx.assume(OKF(z3.Empty(SS)))
+    ctx.assume(DIST(z3.Empty(SS)))
     for g in GHOSTS:
         for f in g.unfold(lines, z3.IntVal(-1)):
             ctx.assume(f)
@@ -183,6 +190,7 @@ def h_parse_sections(ctx):
     ctx.check('C17.views.exactly_one_view_per_header_in_file_order', cols[0] == Names(lines, n), 'property')
     ctx.check('C17.views.each_view_has_its_header_line_number', cols[1] == Lnos(lines, n), 'property')
     ctx.check('C17.views.every_view_has_a_filter', OKF(cols[2]), 'property')
+    ctx.check('C17.views.no_two_views_share_a_name', DIST(cols[0]), 'property')       # results are keyed by view name (C10): a repeated name would merge two views
     ctx.cover('parse_sections.returns')
 
 
